@@ -96,7 +96,13 @@ def gen_cases(rng, tier):
         nmut = 0 if rng.random() < 0.3 else rng.randint(1, 6)
         for _ in range(rng.randint(3, 25)):
             if nmut and rng.random() < 0.25:
-                sched.append(["mut", hexlib.gen_simple_op(rng, keys + [bytes([rng.randrange(256)])], values)])
+                if rng.random() < 0.3:
+                    # the trie changes through a squash_changes block (committed or left by an exception) between two steps
+                    # of the walk, as in the repository's own walk tests (C09.walk_over_history_with_blocks)
+                    inner = [hexlib.gen_simple_op(rng, keys + [bytes([rng.randrange(256)])], values) for _ in range(rng.randint(1, 4))]
+                    sched.append(["mutb", "ok" if rng.random() < 0.7 else ["raise", rng.randint(0, len(inner))], inner])
+                else:
+                    sched.append(["mut", hexlib.gen_simple_op(rng, keys + [bytes([rng.randrange(256)])], values)])
                 nmut -= 1
             else:
                 q = [rng.randrange(16) for _ in range(rng.randint(0, 5))]
@@ -291,6 +297,12 @@ def run_case(case):
             r.simple("0", trie, r.model, item[1])
             versions.append(dict(r.model))
             mutated = True
+            continue
+        if item[0] == "mutb":
+            r.batch(item[1], item[2])
+            versions.append(dict(r.model))
+            mutated = True
+            res.tags.add("trie-changed-through-a-block-during-the-walk")
             continue
         step_no += 1
         if case["cache"] == "reset" and step_no == case["reset_at"]:
